@@ -6,10 +6,10 @@ export GOFLAGS=-mod=mod GOPROXY=off GOSUMDB=off GOTOOLCHAIN=local
 cd "$wt" || exit 2
 git checkout -q -- . ; git clean -fdq
 cp "$demo" "$dir/zz_demo_test.go"
-( cd "$dir" && go test -gcflags=all=-l -vet=off -count=1 "$@" . >/tmp/confirm_pristine.log 2>&1 ); p=$?
+( cd "$dir" && go test -gcflags=all=-l -vet=off -count=1 "$@" . >/tmp/confirm_$(basename $wt)_pristine.log 2>&1 ); p=$?
 git apply "$diff" || { echo "PATCH-FAILS"; exit 2; }
 go build ./... || { echo "BUILD-FAILS"; }
-( cd "$dir" && go test -gcflags=all=-l -vet=off -count=1 "$@" . >/tmp/confirm_mutant.log 2>&1 ); m=$?
+( cd "$dir" && go test -gcflags=all=-l -vet=off -count=1 "$@" . >/tmp/confirm_$(basename $wt)_mutant.log 2>&1 ); m=$?
 rm -f "$dir/zz_demo_test.go"
 /verif/tools/baseline.py "$wt" | head -3
 git checkout -q -- . ; git clean -fdq
